@@ -124,6 +124,11 @@ func cmdCheck(args []string, repo, spec string, timeout int, verbose bool) int {
 	if ps.Extra != nil {
 		ps.Extra(c)
 	}
+	for _, k := range loadKnown(verif).Findings {
+		if k.Property == id {
+			knownObl[k.Obligation] = true
+		}
+	}
 	c.dischargeAll()
 	return c.report(t0, verbose)
 }
@@ -145,6 +150,9 @@ func (c *Checker) selectAndEncode() {
 		if f == nil || f.Blocks == nil {
 			c.engineErr = append(c.engineErr, fmt.Sprintf("contract for %s: no such function in %s (renamed or removed?)", k, c.W.Repo))
 			continue
+		}
+		if done[f] {
+			continue // several blocks of one function carry the tag
 		}
 		done[f] = true
 		c.addFunc(f, nil)
